@@ -15,6 +15,10 @@ SKIP_OPTIONS = {"distributed", "run_root_only", "always_opt", "use_jit", "defaul
 FD_DECLARED = {"WingboxGeometry": 5e-4}
 
 
+# magnitude of the intermediates an output is computed from, where that is not the magnitude of the output itself
+INTERMEDIATE_MAGNITUDE = {"ComputeTransformationMatrix": 1.0}
+
+
 def leaf_components(model):
     from openmdao.core.component import Component
 
@@ -127,6 +131,11 @@ def check_explicit(out, comp, ins, out_names, rng, eps, tag, rtol=1e-6, per_inpu
                 out.fail("%s:input_modified_in_place/%s" % (cname, k), "[%s] linearisation changed its input %s" % (tag, k))
         sizes = {o: int(np.size(solo.p.get_val("c." + o))) for o in out_names}
         fmags = {o: float(np.max(np.abs(solo.p.get_val("c." + o)))) if sizes[o] else 0.0 for o in out_names}
+        # outputs formed as a difference from O(1) intermediates carry the round-off (and the quantisation: cos(1e-9) - 1 is
+        # exactly 0) of those intermediates, not of their own small magnitude: ComputeTransformationMatrix returns R - I
+        floor = INTERMEDIATE_MAGNITUDE.get(type(comp).__name__)
+        if floor:
+            fmags = {o: max(v, floor) for o, v in fmags.items()}
 
         def Jd(dirs):
             res = []
